@@ -589,8 +589,10 @@ func (i *IRCServer) ThrottleUntil(sessionid robust.Id) time.Time {
 	if cooloff == 0 {
 		return time.Time{}
 	}
-	i.sessionsMu.RLock()
-	defer i.sessionsMu.RUnlock()
+	// throttlingExponent is modified below, so the read lock is not enough:
+	// two requests for the same session can run concurrently.
+	i.sessionsMu.Lock()
+	defer i.sessionsMu.Unlock()
 
 	if s, ok := i.sessions[sessionid]; ok && !s.Server {
 		// Reset throttlingExponent when the session was idle long enough.
